@@ -574,6 +574,111 @@ run_resize(void *arg)
 }
 
 // =============================================================================
+// Scenario: one peer is stalled, the others are not
+// =============================================================================
+// A BUS socket S with three peers that connected one after the other; the peer at position
+// `stall` (0 = connected first .. 2 = last) is a raw peer that does not read: a message larger than
+// the kernel buffer is stuck on its pipe and S's queue towards it fills up (SENDBUF 2).  The other
+// two are ordinary BUS sockets that read.  S then sends 8 numbered messages, one at a time: each
+// send returns at once (BUS never blocks), the two healthy peers receive every one of them, once,
+// in order - what the stalled peer cannot take is dropped for that peer only.
+static void
+run_stall(void *arg)
+{
+	int raw = (int) (intptr_t) arg;
+	vh_init(0);
+	nng_socket   S, P[3];
+	nng_listener l;
+	int          fd = -1;
+	int          stall = vs_choose(VK_ENV, 3);
+	if (raw)
+		VH_OK(nng_bus0_open_raw(&S));
+	else
+		VH_OK(nng_bus0_open(&S));
+	VH_OK(nng_socket_set_int(S, NNG_OPT_SENDBUF, 2));
+	VH_OK(nng_socket_set_ms(S, NNG_OPT_SENDTIMEO, 50));
+	VH_OK(nng_listen(S, "inproc://c09stall", NULL, 0));
+	VH_OK(nng_listener_create(&l, S, "socket://"));
+	VH_OK(nng_listener_start(l, 0));
+	for (int i = 0; i < 3; i++) {
+		if (i == stall) {
+			fd = vp_attach_more(l);
+			vs_settle();
+			if (fd < 0 || vp_handshake(fd, SP_BUS) < 0)
+				vs_fail("harness:setup", "raw bus peer");
+		} else {
+			VH_OK(nng_bus0_open(&P[i]));
+			VH_OK(nng_socket_set_int(P[i], NNG_OPT_RECVBUF, 16));
+			VH_OK(nng_socket_set_ms(P[i], NNG_OPT_RECVTIMEO, 20));
+			VH_OK(nng_dial(P[i], "inproc://c09stall", NULL, 0));
+		}
+		vs_settle();
+	}
+	// the big one: the stalled peer's pipe is busy from here on; the healthy peers take it
+	{
+		nng_msg *m;
+		VH_OK(nng_msg_alloc(&m, 600000));
+		memset(nng_msg_body(m), 0x77, 600000);
+		if (raw)
+			VH_OK(nng_msg_header_append_u32(m, 0));
+		if (nng_sendmsg(S, m, 0) != 0)
+			vs_fail("C09:send-blocked", "the large message was refused");
+		vs_settle();
+		for (int i = 0; i < 3; i++)
+			if (i != stall) {
+				nng_msg *r = NULL;
+				if (nng_recvmsg(P[i], &r, 0) != 0 || nng_msg_len(r) != 600000)
+					vs_fail("C09:lost", "peer %d did not get the large message", i);
+				nng_msg_free(r);
+			}
+	}
+	int next[3] = { 1, 1, 1 };
+	for (int n = 1; n <= 8; n++) {
+		nng_msg *m;
+		uint8_t  b[2] = { 'n', (uint8_t) n };
+		VH_OK(nng_msg_alloc(&m, 0));
+		VH_OK(nng_msg_append(m, b, 2));
+		if (raw)
+			VH_OK(nng_msg_header_append_u32(m, 0));
+		int64_t t0 = vs_now();
+		int     rv = nng_sendmsg(S, m, 0);
+		if (rv != 0 || vs_now() != t0) {
+			if (rv != 0)
+				nng_msg_free(m);
+			vs_fail("C09:send-blocked",
+			    "send %d with one stalled peer (position %d): result %d after %lld ms", n,
+			    stall, rv, (long long) (vs_now() - t0));
+		}
+		vs_settle();
+		for (int i = 0; i < 3; i++) {
+			if (i == stall)
+				continue;
+			nng_msg *r = NULL;
+			if (nng_recvmsg(P[i], &r, 0) != 0)
+				vs_fail("C09:lost",
+				    "%s bus, the peer that connected %s is stalled with a full queue: "
+				    "message %d did not reach healthy peer %d (it is idle and its "
+				    "queue is empty)",
+				    raw ? "raw" : "cooked",
+				    stall == 0 ? "first" : stall == 1 ? "second" : "last", n, i);
+			if (nng_msg_len(r) != 2 || ((uint8_t *) nng_msg_body(r))[1] != next[i])
+				vs_fail("C09:order", "peer %d received %d where %d was due", i,
+				    nng_msg_len(r) == 2 ? ((uint8_t *) nng_msg_body(r))[1] : -1, next[i]);
+			next[i]++;
+			nng_msg_free(r);
+		}
+	}
+	vs_nontrivial();
+	vs_outcome("stall=%d", stall);
+	close(fd);
+	for (int i = 0; i < 3; i++)
+		if (i != stall)
+			nng_socket_close(P[i]);
+	nng_socket_close(S);
+	vh_fini();
+}
+
+// =============================================================================
 static long   g_exec;
 static double g_wall;
 
@@ -639,6 +744,8 @@ main(int argc, char **argv)
 		if (vx_time_left() > 10)
 			explore(name, run_resize, NULL, d);
 	}
+	explore("one-stalled-peer-cooked", run_stall, (void *) 0, 0);
+	explore("one-stalled-peer-raw", run_stall, (void *) 1, 0);
 	// deeper runs only when the machine is fast enough today
 	if (T && affordable(279936)) {
 		snprintf(name, sizeof(name), "mesh-qd1-blocking-d7");
